@@ -21,7 +21,7 @@ theorem NodeOcc.par {o m : Nat} {sh : Shallow K V} (h : NodeOcc o m sh) : Par sh
 theorem NodeOcc.of_par {o m : Nat} {sh : Shallow K V} (h : Par sh) (h1 : sh.keys.length ≤ o)
     (h2 : m ≤ sh.keys.length) : NodeOcc o m sh := ⟨h1, h2, h⟩
 
-theorem count_eq : ∀ {d : Nat} (n : Node K V d), Node.count n = (shallow n).keys.length
+theorem count_eqD : ∀ {d : Nat} (n : Node K V d), Node.count n = (shallow n).keys.length
   | 0, _ => rfl
   | _ + 1, _ => rfl
 
